@@ -15,10 +15,133 @@ static ALLOC_JUNK: AtomicU8 = AtomicU8::new(0);
 pub static ALLOC_CALLS: AtomicU64 = AtomicU64::new(0);
 pub static REALLOC_MOVES: AtomicU64 = AtomicU64::new(0);
 
+// ---- deterministic arena: heap *addresses* as a pure function of the run --------------------
+//
+// While the arena is on, every allocation is served from one region mapped at a fixed address,
+// with power-of-two size classes and LIFO free lists (a freed block is the next one handed out
+// for its class, like a thread cache). `arena_reset` at the start of a run makes the sequence of
+// addresses depend on nothing but the run's own allocation sequence, in any process: a result
+// that depends on the identity of a reused address replays exactly.
+
+const ARENA_BASE: usize = 0x6000_0000_0000;
+const ARENA_SIZE: usize = 8 << 30;
+const N_CLASSES: usize = 40;
+
+struct Arena {
+    base: usize,
+    bump: usize,
+    free: [usize; N_CLASSES],
+}
+
+static ARENA_ON: std::sync::atomic::AtomicBool = std::sync::atomic::AtomicBool::new(false);
+static ARENA_LOCK: std::sync::atomic::AtomicBool = std::sync::atomic::AtomicBool::new(false);
+static mut ARENA: Arena = Arena { base: 0, bump: 0, free: [0; N_CLASSES] };
+pub static ARENA_ALLOCS: AtomicU64 = AtomicU64::new(0);
+pub static ARENA_REUSES: AtomicU64 = AtomicU64::new(0);
+
+extern "C" {
+    fn mmap(addr: *mut c_void, len: usize, prot: i32, flags: i32, fd: i32, off: i64) -> *mut c_void;
+}
+
+struct ArenaGuard;
+impl ArenaGuard {
+    fn lock() -> Self {
+        while ARENA_LOCK
+            .compare_exchange_weak(false, true, Ordering::Acquire, Ordering::Relaxed)
+            .is_err()
+        {
+            std::hint::spin_loop();
+        }
+        ArenaGuard
+    }
+}
+impl Drop for ArenaGuard {
+    fn drop(&mut self) {
+        ARENA_LOCK.store(false, Ordering::Release);
+    }
+}
+
+fn class_of(layout: &Layout) -> usize {
+    let need = layout.size().max(layout.align()).max(16);
+    need.next_power_of_two().trailing_zeros() as usize
+}
+
+fn in_arena(p: *mut u8) -> bool {
+    let a = p as usize;
+    // SAFETY: base is written once before the arena is ever switched on
+    let base = unsafe { (*std::ptr::addr_of!(ARENA)).base };
+    base != 0 && a >= base && a < base + ARENA_SIZE
+}
+
+unsafe fn arena_alloc(layout: Layout) -> *mut u8 {
+    let c = class_of(&layout);
+    if c >= N_CLASSES {
+        return std::ptr::null_mut();
+    }
+    let _g = ArenaGuard::lock();
+    let a = &mut *std::ptr::addr_of_mut!(ARENA);
+    ARENA_ALLOCS.fetch_add(1, Ordering::Relaxed);
+    let head = a.free[c];
+    if head != 0 {
+        a.free[c] = *(head as *const usize);
+        ARENA_REUSES.fetch_add(1, Ordering::Relaxed);
+        return head as *mut u8;
+    }
+    let size = 1usize << c;
+    let align = size.min(4096);
+    let start = (a.bump + align - 1) & !(align - 1);
+    if start + size > a.base + ARENA_SIZE {
+        return std::ptr::null_mut();
+    }
+    a.bump = start + size;
+    start as *mut u8
+}
+
+unsafe fn arena_free(ptr: *mut u8, layout: Layout) {
+    let c = class_of(&layout);
+    let _g = ArenaGuard::lock();
+    let a = &mut *std::ptr::addr_of_mut!(ARENA);
+    *(ptr as *mut usize) = a.free[c];
+    a.free[c] = ptr as usize;
+}
+
+/// Maps the region (once) and forgets every block: the next run starts from an empty heap.
+/// Everything allocated while the arena was on must be dead by now.
+pub fn arena_reset() -> bool {
+    let _g = ArenaGuard::lock();
+    // SAFETY: guarded by the spin lock; the region is private to this allocator
+    unsafe {
+        let a = &mut *std::ptr::addr_of_mut!(ARENA);
+        if a.base == 0 {
+            // PROT_READ|PROT_WRITE, MAP_PRIVATE|MAP_ANONYMOUS|MAP_NORESERVE|MAP_FIXED_NOREPLACE
+            let p = mmap(ARENA_BASE as *mut c_void, ARENA_SIZE, 3, 0x02 | 0x20 | 0x4000 | 0x10_0000, -1, 0);
+            if p as isize == -1 || p as usize != ARENA_BASE {
+                return false;
+            }
+            a.base = ARENA_BASE;
+        }
+        a.bump = a.base;
+        a.free = [0; N_CLASSES];
+    }
+    true
+}
+
+pub fn arena_on(on: bool) {
+    ARENA_ON.store(on, Ordering::SeqCst);
+}
+
 pub struct SimAlloc;
 
 unsafe impl GlobalAlloc for SimAlloc {
     unsafe fn alloc(&self, layout: Layout) -> *mut u8 {
+        if ARENA_ON.load(Ordering::Relaxed) {
+            let p = arena_alloc(layout);
+            if !p.is_null() {
+                let junk = ALLOC_JUNK.load(Ordering::Relaxed);
+                std::ptr::write_bytes(p, if junk == 0 { 0xA5 } else { junk }, layout.size());
+                return p;
+            }
+        }
         let p = System.alloc(layout);
         let junk = ALLOC_JUNK.load(Ordering::Relaxed);
         if junk != 0 && !p.is_null() {
@@ -29,11 +152,23 @@ unsafe impl GlobalAlloc for SimAlloc {
     }
 
     unsafe fn alloc_zeroed(&self, layout: Layout) -> *mut u8 {
+        if ARENA_ON.load(Ordering::Relaxed) {
+            let p = arena_alloc(layout);
+            if !p.is_null() {
+                std::ptr::write_bytes(p, 0, layout.size());
+                return p;
+            }
+        }
         System.alloc_zeroed(layout)
     }
 
     unsafe fn dealloc(&self, ptr: *mut u8, layout: Layout) {
         let junk = ALLOC_JUNK.load(Ordering::Relaxed);
+        if in_arena(ptr) {
+            std::ptr::write_bytes(ptr, if junk == 0 { 0x5A } else { !junk }, layout.size());
+            arena_free(ptr, layout);
+            return;
+        }
         if junk != 0 {
             std::ptr::write_bytes(ptr, !junk, layout.size());
         }
@@ -42,22 +177,18 @@ unsafe impl GlobalAlloc for SimAlloc {
 
     unsafe fn realloc(&self, ptr: *mut u8, layout: Layout, new_size: usize) -> *mut u8 {
         let junk = ALLOC_JUNK.load(Ordering::Relaxed);
-        if junk == 0 {
+        if junk == 0 && !in_arena(ptr) && !ARENA_ON.load(Ordering::Relaxed) {
             return System.realloc(ptr, layout, new_size);
         }
         let new_layout = Layout::from_size_align_unchecked(new_size, layout.align());
-        let q = System.alloc(new_layout);
+        let q = self.alloc(new_layout);
         if q.is_null() {
             return q;
         }
         REALLOC_MOVES.fetch_add(1, Ordering::Relaxed);
         let keep = layout.size().min(new_size);
         std::ptr::copy_nonoverlapping(ptr, q, keep);
-        if new_size > keep {
-            std::ptr::write_bytes(q.add(keep), junk, new_size - keep);
-        }
-        std::ptr::write_bytes(ptr, !junk, layout.size());
-        System.dealloc(ptr, layout);
+        self.dealloc(ptr, layout);
         q
     }
 }
